@@ -252,6 +252,8 @@ def make_strategy(symbol, script, ctx):
     class Scripted(Strategy):
         def _row(self):
             i = self.index
+            if script.get('cycle') and rows:
+                return rows[i % len(rows)]
             return rows[i] if i < len(rows) else {}
 
         def _obs(self, name, order=None):
